@@ -115,15 +115,22 @@ Proof.
 Qed.
 
 (** ** copies of the edges *)
-Lemma has_node_id_In : forall g n, In n (g_nodes g) -> has_node_id g (n_id n) = true.
+Lemma find_node_id_In : forall ns n, NoDup (map n_id ns) -> In n ns -> find_node_id ns (n_id n) = Some n.
 Proof.
-  intros. unfold has_node_id. apply existsb_exists. exists n; split; auto. apply id_eqb_refl.
+  induction ns as [|m ns IH]; simpl; intros n ND Hin; try tauto. inversion ND; subst.
+  destruct Hin as [->|Hin].
+  - rewrite id_eqb_refl; auto.
+  - destruct (id_eqb (n_id m) (n_id n)) eqn:E; auto.
+    apply id_eqb_eq in E. exfalso. apply H1. rewrite E. apply in_map; auto.
 Qed.
 
-Lemma add_missing_id : forall ns g, (forall n, In n ns -> In n (g_nodes g)) -> add_missing_nodes g ns = g.
+(** attachment nodes that are already nodes of the graph: nothing to add, no clash *)
+Lemma check_new_nodes_old : forall g ns new, NoDup (map n_id (g_nodes g)) ->
+  (forall n, In n ns -> In n (g_nodes g)) -> check_new_nodes g ns new = Some new.
 Proof.
-  unfold add_missing_nodes. induction ns; simpl; intros; auto.
-  rewrite has_node_id_In by auto. apply IHns; auto.
+  induction ns as [|n ns IH]; simpl; intros new ND H; auto.
+  rewrite (find_node_id_In (g_nodes g) n ND) by auto.
+  rewrite node_eqb_refl. apply IH; auto.
 Qed.
 
 Lemma has_edge_id_false : forall g nx k, below nx g -> nx <= k -> has_edge_id g (Fresh k) = false.
@@ -151,6 +158,14 @@ Lemma add_edge_label_ok : forall L tbl l, functional L -> incl tbl L -> In l L -
   add_edge_label tbl l = Ok (tbl_add tbl l).
 Proof.
   intros. unfold add_edge_label, tbl_add. destruct (find_label tbl (l_name l)) eqn:E; auto.
+  apply find_label_Some in E. destruct E as [Hin Hn].
+  assert (e = l) by (apply H; auto). subst.
+  assert (elabel_eqb l l = true) by (apply elabel_eqb_eq; auto). rewrite H2; auto.
+Qed.
+
+Lemma label_clash_ok : forall L tbl l, functional L -> incl tbl L -> In l L -> label_clash tbl l = false.
+Proof.
+  intros. unfold label_clash. destruct (find_label tbl (l_name l)) eqn:E; auto.
   apply find_label_Some in E. destruct E as [Hin Hn].
   assert (e = l) by (apply H; auto). subst.
   assert (elabel_eqb l l = true) by (apply elabel_eqb_eq; auto). rewrite H2; auto.
@@ -221,11 +236,12 @@ Lemma copy_edges_spec : forall L nm res g nx em,
      exists x, aget node_eqb nm v = Some x /\ In x (g_nodes g) /\ n_label x = n_label v) ->
   (forall re, In re res -> l_type (e_label re) = map n_label (e_att re)) ->
   below nx g -> NoDup res -> (forall re, In re res -> aget edge_eqb em re = None) ->
+  NoDup (map n_id (g_nodes g)) ->
   copy_edges nm res g nx em =
   (add_edges g (ecopies nm nx res) (tbl_adds (g_elabs g) (map e_label res)), nx + length res,
    Ok (em ++ combine res (ecopies nm nx res))).
 Proof.
-  intros L nm. induction res as [|re res IH]; intros g nx em HF HT HL HM HTy HB ND HE.
+  intros L nm. induction res as [|re res IH]; intros g nx em HF HT HL HM HTy HB ND HE HN.
   - simpl. unfold add_edges, tbl_adds; simpl. rewrite !app_nil_r, Nat.add_0_r. destruct g; auto.
   - inversion ND; subst. cbn [copy_edges].
     assert (M : map_nodes nm (e_att re) = Some (map (gn nm) (e_att re))).
@@ -239,9 +255,11 @@ Proof.
     rewrite Ty. cbn [negb].
     unfold add_edge. cbn [e_id e_att e_label].
     rewrite (has_edge_id_false g nx nx HB) by lia.
-    rewrite add_missing_id.
+    rewrite (label_clash_ok L) by (auto; apply HL; simpl; auto).
+    rewrite (check_new_nodes_old g _ [] HN).
     2:{ intros n Hn. apply in_map_iff in Hn. destruct Hn as [v [<- Hv]].
         destruct (HM re v (or_introl eq_refl) Hv) as [x [Hx [Hin _]]]. unfold gn; rewrite Hx; auto. }
+    cbn [g_nodes g_edges g_ext g_elabs]. rewrite app_nil_r.
     rewrite (add_edge_label_ok L) by (auto; apply HL; simpl; auto).
     rewrite (aset_none edge_eqb) by (apply HE; simpl; auto).
     rewrite IH; auto.
@@ -262,3 +280,4 @@ Proof.
     + intros re' Hre. rewrite aget_app. rewrite HE by (simpl; auto). simpl.
       destruct (edge_eqb re re') eqn:E; auto. apply edge_eqb_eq in E. subst. tauto.
 Qed.
+
